@@ -234,6 +234,68 @@ fn literals(report: &Report) {
     report.family(FamilyStat { name: "literals".into(), cases: n, nontrivial: n, skipped: 0, note: format!("integers={} (boundaries + 2000-value sweep, signed, via output and via assign), decimals 1..6 fraction digits, strings of <=3 tokens over a {}-token alphabet in both quote styles", ints.len(), alpha.len()) });
 }
 
+
+/// Keys that are awkward to spell: spaces, dots, brackets, quotes, non-ASCII, the empty key, keys
+/// that look like numbers / literals / special names.  Each is reached through a bracket with a
+/// string literal (either quote style), through a variable holding the key, two levels deep, and
+/// where the identifier grammar allows through a dot; the value found must be exactly that key's
+/// (every key maps to its own marker), and a key that is not there must fail.
+fn awkward_keys(report: &Report) {
+    let parser = cfgs::parser(Config::Stdlib);
+    let keys = ["a b", "a.b", "a[0]", "é", "👍k", "", " ", "-1", "0", "1.5", "true", "nil", "empty", "first", "size", "last", "a-b", "_u", "A", "a", "it's", "say \"hi\"", "{{", "%}", "k|upcase", "o", "kv"];
+    let obj = V::Obj(keys.iter().enumerate().map(|(i, k)| (k.to_string(), V::Str(format!("v{i}")))).collect());
+    let mut n = 0u64;
+    let mut run1 = |text: String, data: &V, want: Result<String, ()>| {
+        n += 1;
+        report.eval();
+        let (actual, _) = cfgs::run_case(&parser, &text, &data.to_object());
+        let ok = match (&actual, &want) {
+            (Outcome::Ok(s), Ok(w)) => s == w,
+            (Outcome::RenderErr(_), Err(())) => true,
+            _ => false,
+        };
+        if !ok {
+            let class = match (&actual, &want) {
+                (Outcome::Panic(_), _) => "panic",
+                (Outcome::ParseErr(_), _) => "rejected",
+                (Outcome::Ok(_), Err(())) => "expected-error-got-output",
+                _ => "wrong-value",
+            };
+            report.violation(&format!("C07|awkward-key|{class}"), n, cmp::witness(&text, data, &[]), format!("{text} on keys {:?}: expected {want:?} got {}", keys, actual.short()));
+        }
+    };
+    for (i, k) in keys.iter().enumerate() {
+        let want = Ok(format!("v{i}"));
+        let data = V::obj(&[("o", obj.clone()), ("kv", V::s(k)), ("w", V::obj(&[("o", obj.clone())])), ("ks", V::Arr(vec![V::s(k)]))]);
+        if !k.contains('"') {
+            run1(format!("{{{{ o[\"{k}\"] }}}}"), &data, want.clone());
+            run1(format!("{{{{ w.o[\"{k}\"] }}}}"), &data, want.clone());
+            run1(format!("{{{{ w[\"o\"][\"{k}\"] }}}}"), &data, want.clone());
+        }
+        if !k.contains('\'') {
+            run1(format!("{{{{ o['{k}'] }}}}"), &data, want.clone());
+        }
+        run1("{{ o[kv] }}".to_string(), &data, want.clone());
+        run1("{{ w.o[kv] }}".to_string(), &data, want.clone());
+        run1("{{ o[ks[0]] }}".to_string(), &data, want.clone());
+        run1("{% assign t = o[kv] %}{{ t }}".to_string(), &data, want.clone());
+        run1("{% if o[kv] == 'nope' %}N{% else %}{{ o[kv] }}{% endif %}".to_string(), &data, want.clone());
+        // dot form where the key is a plain identifier that is not a literal keyword
+        if ["first", "size", "last", "a-b", "_u", "A", "a", "o", "kv"].contains(k) {
+            run1(format!("{{{{ o.{k} }}}}"), &data, want.clone());
+            run1(format!("{{{{ w.o.{k} }}}}"), &data, want.clone());
+        }
+    }
+    // absent keys fail loudly, also when they are near misses of present ones
+    let data = V::obj(&[("o", obj.clone())]);
+    for k in ["zzz", "a  b", "A ", "É", "1", "1.50", "True", "a.b.c", "a_b", "v0"] {
+        run1(format!("{{{{ o[\"{k}\"] }}}}"), &data, Err(()));
+        run1("{{ o[kv] }}".to_string(), &V::obj(&[("o", obj.clone()), ("kv", V::s(k))]), Err(()));
+    }
+    report.nontrivial.fetch_add(n, Ordering::Relaxed);
+    report.family(FamilyStat { name: "awkward keys".into(), cases: n, nontrivial: n, skipped: 0, note: format!("{} keys (spaces, dots, brackets, quotes, non-ASCII, empty, number-/literal-/special-looking) through bracket literals, variables, nested paths, assign, if, and dots where the grammar allows", keys.len()) });
+}
+
 pub fn run(tier: Tier) -> i32 {
     let report = Report::new("C07", tier, "exploration");
     report.set_rule("all paths of 1..L steps (root name + up to L-1 steps from a step alphabet: dot/bracket keys, every integer index in [-len-2,len+1], indices through variables and nested paths, first/last/size, missing keys, nil/undefined/array-valued indices) over 6-7 nested data roots; all listed literals; distinct by construction; non-trivial = the reference resolves the path to a value (the rest must fail with an error)");
@@ -241,5 +303,6 @@ pub fn run(tier: Tier) -> i32 {
     report.assume("string index on an array, first/last of objects and strings, size of non-string scalars are unspecified and skipped");
     paths(&report, tier.thorough(), if tier.thorough() { 5 } else { 4 });
     literals(&report);
+    awkward_keys(&report);
     report.finish()
 }
